@@ -1,6 +1,7 @@
 mod audit;
 mod core;
 mod driver;
+mod hashseam;
 mod htmlgen;
 mod prng;
 mod rrule;
@@ -148,7 +149,7 @@ fn plan(prop: &str, tier: Tier) -> Option<Plan> {
             batches: vec![b("W1", "actions", 5000, 100000)],
             assumptions: vec![
                 "the harness owns the delivery order of matched routes (4 seeded permutations per probe) and the insertion order of rebuilt routers; sampling disabled",
-                "internal hash iteration orders are not behind a seam: they are sampled by rebuilding routers in-process (every HashMap instance has its own key) and by the cross-process determinism self-check",
+                "internal hash iteration orders are behind the hash seam (hashseam.rs: the binary supplies getrandom, so the per-thread HashMap keys derive from the seed): every case is executed twice in a row under different keys and the two event logs, which hold the serialised action of every probe, must be equal (clause differs-under-hash-order); rebuilt routers sample further orders since every HashMap instance has its own key; the keys of a failing run are stored in its replay file and reproduced exactly",
             ],
         },
         "C05" => Plan {
@@ -261,41 +262,7 @@ fn cmd_check(prop: &str, tier: Tier) -> i32 {
     let mut herr: Vec<String> = Vec::new();
     let hashes = std::env::var("VERIF_HASHES").is_ok();
     for b in &plan.batches {
-        // C11: internal hash orders are not behind a seam; they are sampled by running the batch in two
-        // independent sets of child processes (different HashMap keys) and diffing the per-run logs,
-        // which include the serialised action of every probe (DESIGN §3 C11)
-        let cross = prop == "C11";
-        let res = run_batch(b, prop, tier, seed, hashes || cross);
-        if cross {
-            let again = run_batch(b, prop, tier, seed, true);
-            let mut diffs: Vec<u64> = res.hashes.iter().filter(|(i, h)| again.hashes.get(i) != Some(h)).map(|(i, _)| *i).collect();
-            diffs.sort_unstable();
-            println!(
-                "  cross-process pass: {} runs re-executed in fresh processes, {} logs differ",
-                again.hashes.len(),
-                diffs.len()
-            );
-            herr.extend(again.harness_errors.iter().cloned());
-            for i in diffs.iter().take(2) {
-                // reported with the generated case; reproducible only statistically (hash keys are per process)
-                let path = format!("{}/replays/C11-{}-{}-s{seed}-r{i}-differs-across-processes.json", verif_dir(), b.world, b.mode);
-                let _ = std::fs::create_dir_all(format!("{}/replays", verif_dir()));
-                let note = json!({
-                    "format": 1, "world": b.world, "mode": b.mode, "property": "C11", "clause": "differs-across-processes",
-                    "detail": format!("run {i}: event log hash {:?} in the first process set, {:?} in the second; the log contains the serialised action of every probe, so the action depends on something outside the seeded inputs (internal hash iteration order)", res.hashes.get(i), again.hashes.get(i)),
-                    "seed": seed, "run": i, "tier": tier.name(), "minimised": false, "min_candidates": 0, "min_budget_exhausted": false,
-                    "case": serde_json::Value::Null, "components": serde_json::Value::Null,
-                    "how_to_reproduce": format!("VERIF_SEED={seed} ./check C11 {} (run index {i}); hash keys are per process, so this reproduces statistically", tier.name()),
-                });
-                let _ = std::fs::write(&path, serde_json::to_string_pretty(&note).unwrap());
-                rep.violations.push(Violation {
-                    prop: "C11".to_string(),
-                    clause: "differs-across-processes".to_string(),
-                    detail: note["detail"].as_str().unwrap_or("").to_string(),
-                    replay_path: path,
-                });
-            }
-        }
+        let res = run_batch(b, prop, tier, seed, hashes);
         println!(
             "  batch {}/{}: runs={} evaluations={} distinct={} unexplained_failing_runs={} deaths={} wall={:.1}s",
             b.world,
